@@ -10,7 +10,7 @@ from .common import need_func, need_class, methods, make_eq
 from . import solver_model as SM
 
 LEVEL = 'other'
-TECHNIQUE = 'abstract interpretation of the eight ODE classes into coefficient matrices over symbolic (r, rho, g, mu, K, omega, l, 4piG); entry-wise polynomial identity with the Takeuchi-Saito/Kamata/Saito reference systems; sibling limits by rational-function limits; dispatch tables by partial evaluation; Love-number extraction by interpretation; conservation of the bilinear concomitant (symplectic structure) of every class; the same obligations on the interpreted sibling solver (derivative kernels, dispatch, propagator matrices); derivation of the Kelvin closed form from exact closed-form solutions of the implemented equations by a symbolic Cramer solve of the surface system; whole-function symbolic execution of cf_radial_solver (integration, starting vectors, zgesv and heap abstracted by contract) for the Love numbers and the span of the assembled solution'
+TECHNIQUE = 'abstract interpretation of the eight ODE classes into coefficient matrices over symbolic (r, rho, g, mu, K, omega, l, 4piG); entry-wise polynomial identity with the Takeuchi-Saito/Kamata/Saito reference systems; sibling limits by rational-function limits; dispatch tables by partial evaluation; Love-number extraction by interpretation; conservation of the bilinear concomitant (symplectic structure) of every class; the same obligations on the interpreted sibling solver (derivative kernels, dispatch, propagator matrices); derivation of the Kelvin closed form from exact closed-form solutions of the implemented equations by a symbolic Cramer solve of the surface system; whole-function symbolic execution of cf_radial_solver (integration, starting vectors, zgesv and heap abstracted by contract) for the Love numbers, the surface condition and the span of the assembled solution; the layer solver built through cf_build_solver with its real update_interp (CyRK interpolation by contract); recorded arguments of the calls that wire the pieces together (cf_build_solver, the Python entry point); declared C integer widths of loop indices against their bounds'
 LEVEL_TEXT = ('Decided exactly (R01.10): for l = 2..4 (thorough: up to 10) and complex rigidity, the exact regular solutions of the system the solver integrates for a homogeneous incompressible static sphere, combined by the solver\'s surface condition and read by its Love-number extraction, give k, h, l of the Kelvin closed form. What is not decided is that the numerical integration converges to those exact solutions. Also decided, for all classes, is the formula-level chain the general case rests on: the equations integrated are the '
               'published ones for every (layer kind, static, incompressible) class, the classes agree with each other in their limits, every dispatcher selects the class / solution count / layout of the same assumption set, '
               'and the Love numbers are read from the right slots of the surface row (with C04: the starting vectors solve these equations; with C02: the surface system is the requested one).')
